@@ -22,7 +22,7 @@ RULE = ("one 'stats' case = one call of Observable.statistics / System.statistic
         "on/off); one 'merge' case = every prefix/suffix split and random multi-way chunkings of a dataset of length <= 8 "
         "from an adversarial value class. Non-trivial: >= 2 draws and observable values not all equal; distinct by the "
         "(num_samples, num_chains, burn_in, steps, observable set, overwrite) tuple + model digest.")
-REQUIRED = ["statistics_calls", "system_calls", "sample_calls_recorded", "dict_fields_compared", "merge_splits_checked",
+REQUIRED = ["saturated_states", "statistics_calls", "system_calls", "sample_calls_recorded", "dict_fields_compared", "merge_splits_checked",
             "user_chain_overwrite_true", "user_chain_overwrite_false", "single_chain_runs", "multi_draw_runs"]
 ANCHOR_FILES = ["qucumber/observables/observable.py", "qucumber/observables/system.py", "qucumber/observables/utils.py"]
 REACH = [
@@ -122,7 +122,7 @@ def run_merge(case, ctx):
                           tags={"exc": type(e).__name__, "single_element_chunk": 1 in lens, "total_one": L == 1})
             continue
         okm = near(gm, wm, scale, rel)
-        okv = near(gv, wv, max(scale * scale, wv if not math.isnan(wv) else 0.0), rel * 10) if not math.isnan(wv) else (math.isnan(float(gv)) or True)
+        okv = near(gv, wv, wv + 1e-3 * abs(wm) * sd + 1e-18 * wm * wm + 1e-290, 1e-9) if not math.isnan(wv) else True
         if gn != wn or not okm or not okv:
             ctx.violation("merge-mismatch", f"merging chunks of lengths {lens} ({cls}) gives (mean, var, n) = ({gm!r}, {gv!r}, {gn!r}); "
                           f"one pass over the concatenation gives ({wm!r}, {wv!r}, {wn!r})",
@@ -142,6 +142,8 @@ def make_obs(rng, nv, which):
         "SWAP": lambda: SWAP([0]),
         "composite": lambda: 2 * SigmaZ() + SigmaX() - 0.5,
         "neg": lambda: -NeighbourInteraction(c=1) * 3,
+        "offset": lambda: SigmaZ() + 3e5,  # mean >> spread: one-pass E[x^2]-E[x]^2 formulas lose the variance
+        "offset2": lambda: 1e3 * NeighbourInteraction(c=1) - 2e6,
     }
     return pool[which]()
 
@@ -156,6 +158,11 @@ def run_case(case, ctx):
     kind = ["positive", "positive", "complex", "mixed"][i % 4]
     nv = int(rng.integers(2, 5))
     am, ph = gen.draw_model(rng, kind, nv, int(rng.integers(1, 4)), 1, scales=[0.3, 0.7, 1.5])
+    if i % 11 == 5:
+        # saturated state: every chain ends in the same configuration (variance exactly zero)
+        am["b"] = 40.0 * np.sign(am["b"])
+        am["W"] = am["W"] * 0.0
+        ctx.count("saturated_states")
     st = gen.make_state(kind, am, ph)
     num_samples = int(rng.integers(1, 26))
     num_chains = int(rng.choice(NC))
@@ -164,7 +171,7 @@ def run_case(case, ctx):
     if i % 13 == 0:
         num_samples = 1
     burn_in, steps = int(rng.integers(0, 5)), int(rng.integers(0, 5))
-    names = ["SigmaZ", "SigmaX", "SigmaY", "absZ", "ZZ", "SWAP", "composite", "neg"]
+    names = ["SigmaZ", "SigmaX", "SigmaY", "absZ", "ZZ", "SWAP", "composite", "neg", "offset", "offset2"]
     use_system = i % 3 == 0
     nobs = int(rng.integers(1, 5)) if use_system else 1
     picks = [names[j] for j in rng.choice(len(names), size=nobs, replace=False)]
@@ -267,10 +274,12 @@ def run_case(case, ctx):
             bad.append(f"num_samples={got['num_samples']} (drawn {wn} = {chains} chains x {draws} draws, requested {num_samples})")
         if not near(got["mean"], wm, scale, 1e-9):
             bad.append(f"mean={got['mean']!r} vs {wm!r}")
-        if not near(got["variance"], wv, scale * scale, 1e-8):
+        # relative to the variance itself, plus the rounding of a well-conditioned merge (eps*|mean|*sd, (eps*mean)^2)
+        vtol_scale = (0.0 if math.isnan(wv) else wv) + 1e-3 * abs(wm) * sd + 1e-18 * wm * wm + 1e-290
+        if not near(got["variance"], wv, vtol_scale, 1e-9):
             bad.append(f"variance={got['variance']!r} vs {wv!r}")
         wse = math.sqrt(wv / wn) if not math.isnan(wv) else float("nan")
-        if not near(got["std_error"], wse, scale, 1e-8):
+        if not near(got["std_error"], wse, (0.0 if math.isnan(wse) else wse) + 1e-6 * math.sqrt(abs(wm) * sd / max(wn, 1)) + 1e-6 * abs(wm) + 1e-290, 1e-8):
             bad.append(f"std_error={got['std_error']!r} vs {wse!r}")
         if bad:
             ctx.violation("statistics-mismatch", f"{'System' if use_system else 'Observable'}.statistics for {ob.name} "
